@@ -226,46 +226,50 @@ func (node *qtNode) minDist2(p v2.Vec, dd float64) float64 {
 	return dd
 }
 
-// winding returns the winding number for the quadtree node
-func (node *qtNode) winding(p v2.Vec, wn int) int {
-	if node == nil {
-		return wn
-	}
-	// leaf node
-	if node.leaf != nil {
-		for _, li := range node.leaf {
-			wn += li.winding(p)
-		}
-		return wn
-	}
-	// child nodes: explore in +ve x-axis order
-	// translate the point so the node box center is at the origin
-	q := p.Sub(node.center)
-	if q.X < 0 {
-		if q.Y < 0 {
-			wn = node.child[0].winding(p, wn)
-			wn = node.child[1].winding(p, wn)
-		} else {
-			wn = node.child[2].winding(p, wn)
-			wn = node.child[3].winding(p, wn)
-		}
-	} else {
-		if q.Y < 0 {
-			wn = node.child[1].winding(p, wn)
-		} else {
-			wn = node.child[3].winding(p, wn)
-		}
-	}
-	return wn
-}
-
 //-----------------------------------------------------------------------------
 // Mesh2D. 2D mesh evaluation with quadtree speedup.
 
 // MeshSDF2 is SDF2 made from a set of line segments.
 type MeshSDF2 struct {
-	qt *qtNode // quadtree root
-	bb Box2    // bounding box
+	qt   *qtNode       // quadtree root (minimum distance)
+	bb   Box2          // bounding box
+	band [][]*lineInfo // unclipped line segments per horizontal band (winding number)
+}
+
+// Number of line segments per horizontal band (average).
+const linesPerBand = 4
+
+// bandIndex returns the horizontal band containing y. It is a non-decreasing function of y.
+func (s *MeshSDF2) bandIndex(y float64) int {
+	n := len(s.band)
+	h := s.bb.Max.Y - s.bb.Min.Y
+	if !(h > 0) {
+		// degenerate mesh: everything is in one band
+		return 0
+	}
+	i := int(float64(n) * (y - s.bb.Min.Y) / h)
+	if i < 0 {
+		return 0
+	}
+	if i >= n {
+		return n - 1
+	}
+	return i
+}
+
+// winding returns the winding number of the mesh about p.
+// A line segment can only cross the ray from p if its y-range contains p.Y, and all
+// such segments are in the band of p.Y. The segments are not clipped, so the result is
+// identical to the sum over all line segments.
+func (s *MeshSDF2) winding(p v2.Vec) int {
+	if p.Y < s.bb.Min.Y || p.Y > s.bb.Max.Y {
+		return 0
+	}
+	wn := 0
+	for _, li := range s.band[s.bandIndex(p.Y)] {
+		wn += li.winding(p)
+	}
+	return wn
 }
 
 // Mesh2D returns an SDF2 made from a set of line segments.
@@ -289,16 +293,28 @@ func Mesh2D(mesh []*Line2) (SDF2, error) {
 	// build the quadtree
 	qt := qtBuild(0, qtBox, mesh)
 
-	return &MeshSDF2{
-		qt: qt,
-		bb: bb,
-	}, nil
+	s := &MeshSDF2{
+		qt:   qt,
+		bb:   bb,
+		band: make([][]*lineInfo, (n+linesPerBand-1)/linesPerBand),
+	}
+
+	// add each line segment to the horizontal bands it passes through
+	for _, li := range convertLines(mesh) {
+		i0 := s.bandIndex(math.Min(li.line[0].Y, li.line[1].Y))
+		i1 := s.bandIndex(math.Max(li.line[0].Y, li.line[1].Y))
+		for i := i0; i <= i1; i++ {
+			s.band[i] = append(s.band[i], li)
+		}
+	}
+
+	return s, nil
 }
 
 // Evaluate returns the minimum distance for a 2d mesh.
 func (s *MeshSDF2) Evaluate(p v2.Vec) float64 {
 	d2 := s.qt.minDist2(p, math.MaxFloat64)
-	wn := s.qt.winding(p, 0)
+	wn := s.winding(p)
 	// normalise d*d to d
 	d := math.Sqrt(d2)
 	if wn != 0 {
